@@ -746,6 +746,62 @@ func runRevisionLock(c *kit.Ctx) {
 			}
 		}
 	}
+	// (1b) the deleted revision's controller reads the Lock through a cache that has not caught up
+	// with another writer's update: every Lock update of one or more whole reconciles answers 409.
+	// The finalizer has to wait until a Lock write got through.
+	for fi, st := range []string{"Active", "Inactive", "Active"} {
+		for stale := 1; stale <= 3; stale++ {
+			name := fmt.Sprintf("revlock/stale-lock-cache/%s/entry-form%d/stale%d", st, (int(uint64(c.Seed)*198)+fi)%3, stale)
+			if !c.Want(name) {
+				continue
+			}
+			w := revisionWorld(uint64(c.Seed)*198+uint64(fi), []string{st, "Active"})
+			var keys, whats []string
+			w.AddHook(lockMonitor(&keys, &whats))
+			frozen := w.RV()
+			behind := true
+			w.SetActorLag("revision0", func(gk schema.GroupKind) (int64, bool) { return -frozen, behind && gk == lockKey.GK() })
+			// somebody else (another revision's controller) rewrites the Lock
+			lk := &unstructured.Unstructured{Object: w.GetObj(lockKey)}
+			lk.SetAnnotations(map[string]string{"touched": "by-another-writer"})
+			if err := w.Client("pkgmgr").Update(ctx, lk); err != nil {
+				panic(err)
+			}
+			_ = w.Client("user").Delete(ctx, &unstructured.Unstructured{Object: w.GetObj(sim.Key{Group: "pkg.crossplane.io", Kind: "ProviderRevision", Name: "prov0-rev"})})
+			from := w.LogLen()
+			r, cl := revisionReconciler(w, "revision0")
+			conflicts := 0
+			for i := 0; i < stale+3; i++ {
+				if i == stale {
+					behind = false // the cache caught up
+				}
+				cl.ResetCalls()
+				lf := w.LogLen()
+				_, _ = r.Reconcile(ctx, reconcile.Request{NamespacedName: types.NamespacedName{Name: "prov0-rev"}})
+				for _, e := range w.Log(lf) {
+					if e.Key == lockKey && e.Reason == "Conflict" {
+						conflicts++
+					}
+				}
+			}
+			if rv := w.GetObj(sim.Key{Group: "pkg.crossplane.io", Kind: "ProviderRevision", Name: "prov0-rev"}); rv == nil {
+				if lock := w.GetObj(lockKey); lock != nil && lockLists(lock, "prov0-rev") {
+					keys = append(keys, "revision-gone-but-still-in-lock:"+st)
+					whats = append(whats, "the revision was finalized and is gone but the Lock still lists it")
+				}
+			}
+			c.Eval(name, conflicts > 0)
+			c.Count("revision_lock_stale_cache_executions", 1)
+			c.Count("revision_lock_conflicts_observed", int64(conflicts))
+			for i, k2 := range keys {
+				var evs []string
+				for _, e := range w.Log(from) {
+					evs = append(evs, e.Short())
+				}
+				c.Violate(k2, name, whats[i], map[string]any{"state": st, "reconciles_behind_cache": stale, "trace": evs})
+			}
+		}
+	}
 	// (2) interleavings: two revisions deleted at the same time, both controllers update the Lock
 	nSched := c.N(60, 1200)
 	for i := 0; i < nSched; i++ {
